@@ -260,7 +260,12 @@ pub fn c19(ctx: &mut Ctx) {
     ctx.run_space("written:ext-writers", sp.len, |idx, l| written_case(&get(idx), l));
     for sp in gens::unknown_spaces(ctx.tier, ctx.seed) {
         let get = &sp.get;
-        ctx.run_space(&format!("written:{}", sp.name), sp.len, |idx, l| written_case(&Target::Pkt(get(idx), Variant::PLAIN), l));
+        ctx.run_space(&format!("written:{}", sp.name), sp.len, |idx, l| {
+            written_case(&Target::Pkt(get(idx), Variant::PLAIN), l);
+            // the same configuration reached by setting count and padding to other values first, with the
+            // builder queried after every call
+            written_case(&Target::Pkt(get(idx), Variant { probe: true, ..Variant::RESET }), l);
+        });
     }
     // embedded in compounds at every position
     let menu: Vec<Member> = vec![
